@@ -83,9 +83,12 @@ pub fn run(stim: &Value, rec: &Rec) {
                 }
                 _ => {
                     let mut c2 = cl.clone();
-                    let r = tokio::time::timeout(Duration::from_millis(if st["expect_pending"].as_bool().unwrap_or(false) { 250 } else { 5000 }), c2.unary(tonic::Request::new(vec![1u8]))).await;
+                    // a call that should be answered gets 20 s of real time (a loaded machine must not look like a hang); once one call of a run
+                    // has hung the rest of the script is not played
+                    let expect_pending = st["expect_pending"].as_bool().unwrap_or(false);
+                    let r = tokio::time::timeout(Duration::from_millis(if expect_pending { 250 } else { 20000 }), c2.unary(tonic::Request::new(vec![1u8]))).await;
                     match r {
-                        Err(_) => log.ev(json!({"e":"call","res":"pending","by":"-","code":-1})),
+                        Err(_) => { log.ev(json!({"e":"call","res":"pending","by":"-","code":-1})); if !expect_pending { break; } }
                         Ok(Ok(resp)) => { let id = resp.into_inner().first().copied().unwrap_or(0); log.ev(json!({"e":"call","res":"ok","by":by_id.get(&id).cloned().unwrap_or("?".into()),"code":0})); }
                         Ok(Err(s)) => log.ev(json!({"e":"call","res": if s.code() == tonic::Code::Unavailable { "unavailable" } else { "other" },"by":"-","code":s.code() as i32,"msg":s.message()})),
                     }
